@@ -1036,6 +1036,53 @@ def _f1():
     return gen, build
 
 
+# ---- F2: one helper, several call sites whose numeric arguments have DIFFERENT machine formats ----------------
+
+F2_HELPERS = {
+    # name: (helper source, call text with {X} = numeric argument and {i} = site number, caller prologue)
+    'bool': (['@fp.fpy', 'def h(neg: bool, x: fp.Real):', '    r = x * x + x', '    if neg:', '        r = -r',
+              '    return r', ''], 'h({B}, {X})', []),
+    'boolexp': (['@fp.fpy', 'def h(neg: bool, x: fp.Real):', '    r = x * x + x', '    if neg:', '        r = -r',
+                 '    return r', ''], 'h(u < {X}, {X})', []),
+    'int': (['@fp.fpy', 'def h(k: fp.Real, x: fp.Real):', '    return x * x + x * k', ''], 'h(k, {X})',
+            ['with SINT32:', '    k = round(u) + 2']),      # run only where |u| < 30 (see build)
+}
+F2_SEQ = {'nw': 'uv', 'wn': 'vu', 'nn': 'uu', 'ww': 'vv', 'nwn': 'uvu', 'wnw': 'vuv'}   # u: binary32, v: binary64
+
+
+@family('F2')
+def _f2():
+    def gen(full):
+        if full:
+            for hk, seq, place, c in itertools.product(F2_HELPERS, F2_SEQ, ('one', 'two'), ['F64E', 'F64Z', 'F64P']):
+                yield ('F2', hk, seq, place, c)
+        else:
+            for hk, seq in itertools.product(F2_HELPERS, ('nw', 'wn', 'nn', 'nwn')):
+                yield ('F2', hk, seq, 'one', 'F64E')
+            for hk in F2_HELPERS:
+                yield ('F2', hk, 'nw', 'two', 'F64Z')
+
+    def build(hk, seq, place, c):
+        hsrc, call, pro = F2_HELPERS[hk]
+        names = ['s', 't', 'w']
+        calls = [f'{names[i]} = ' + call.format(B=('True' if i % 2 else 'False'), X=x)
+                 for i, x in enumerate(F2_SEQ[seq])]
+        used = names[:len(calls)]
+        c3 = FCTX[(FCTX.index(c) + 1) % 4]           # another binary64 context
+        if place == 'one':
+            lines = pro + [f'with {c}:'] + ind(calls + [f'return {" + ".join(used)}, {", ".join(used)}'])
+        else:
+            lines = pro + [f'with {c}:'] + ind(calls[:1]) + [f'with {c3}:'] + ind(calls[1:]) + \
+                    [f'return {" + ".join(used)}, {", ".join(used)}']
+        if pro:
+            # float -> integer conversion is defined in C++ only in range: guard it
+            lines = ['if abs(u) < 30:'] + ind(lines) + ['return ' + ', '.join(['v'] * (len(used) + 1))]
+        src = '\n'.join(hsrc) + '\n' + fn('f', [('u', 's32'), ('v', 's64')], lines)
+        return Program(('F2', hk, seq, place, c), 'F', f'F2:{hk}:{seq}:{place}:{c}', src, ['s32', 's64'], 'F64E',
+                       sig={'helper': hk, 'sites': seq, 'contexts': place})
+    return gen, build
+
+
 # ---- G: integer contexts and REAL ---------------------------------------------
 
 @family('G1')          # integer loop arithmetic on small values
